@@ -713,6 +713,166 @@ fn main() {
         }
     }
 
+    // ---- 3b. compressing builder targets: the TSIG owner may be written as a pointer
+    {
+        use domain::base::message_builder::{HashCompressor, StaticCompressor, TreeCompressor};
+        use domain::base::wire::Composer;
+        fn exchange<T: Composer + AsRef<[u8]>>(out: &mut Out, c: &Sha2Consts, r: &mut Rng, tag: &str, alg: Alg, mk: fn() -> T) {
+            let lo = std::cmp::max(10, alg.native() / 2);
+            let sign = if r.chance(1, 2) { None } else { Some(r.range(lo as u64, alg.native() as u64) as usize) };
+            let mut name = vec![];
+            for _ in 0..r.range(1, 3) { let l: Vec<u8> = (0..r.range(2, 8)).map(|_| b'a' + r.below(26) as u8).collect(); name.push(l.len() as u8); name.extend_from_slice(&l); }
+            name.push(0);
+            let sl = r.range(8, 40) as usize; let k = KeySpec { alg, secret: r.bytes(sl), name: name.clone(), min: Some(lo), sign };
+            let Ok(key) = k.lib() else { return };
+            let t = 1_650_000_000 + r.below(1 << 27);
+            let id = r.u16();
+            // the question name ends in the key name, so that a compressor has something to point at
+            let mut qn = b"\x03www".to_vec(); qn.extend_from_slice(&name);
+            if qn.len() > 255 { return; }
+            let mut b = MessageBuilder::from_target(mk()).ok().unwrap();
+            b.header_mut().set_id(id);
+            let mut q = b.question();
+            q.push((name_from_wire(&qn), Rtype::A)).unwrap();
+            let mut ab = q.additional();
+            let pre = ab.as_slice().to_vec();
+            let Ok(tr) = ClientTransaction::request(key.clone(), &mut ab, Time48::from_u64(t)) else { return };
+            let wire = ab.as_slice().to_vec();
+            let compressed = wire.len() > pre.len() && wire[pre.len()] & 0xC0 == 0xC0;
+            out.count(if compressed { "compressed_owner" } else { "uncompressed_owner" });
+            let mac = wire[wire.len() - 6 - k.sign_len()..wire.len() - 6].to_vec();
+            let mut d = pre.clone(); d.extend_from_slice(&rfc_variables(&k, t, 300, 0, &[]));
+            let mut want = alg.hmac(c, &k.secret, &d); want.truncate(k.sign_len());
+            let case = format!("sreq {} {} {}", k.words(), hex(&wire), t);
+            out.begin(&case);
+            out.check_c(mac == want, "compressed_mac_rfc8945", &case, &format!("{} request MAC {} reference {}", tag, hex(&mac), hex(&want)));
+            let sres = run_server(&key, &wire, t);
+            out.case(&case, &sres.obs(), true, &format!("sreq_compressed_{}", tag));
+            match &sres {
+                Srv::Ok(m) => out.check_c(m.len() >= pre.len() && m[..pre.len()] == pre[..], "compressed_not_restored", &case, &hex(m)),
+                o => { out.check_c(false, "compressed_request_rejected", &case, &format!("{} {}", tag, o.obs())); return; }
+            }
+            // answer through the same kind of target
+            let mut reqm = Message::from_octets(wire.clone()).unwrap();
+            let Ok(Some(st)) = ServerTransaction::request(&&key, &mut reqm, Time48::from_u64(t)) else { return };
+            let ansb = MessageBuilder::from_target(mk()).ok().unwrap();
+            let mut an = ansb.start_answer(&reqm, Rcode::NOERROR).unwrap();
+            for i in 0..r.below(3) { an.push((name_from_wire(&qn), Class::IN, Ttl::from_secs(30), A::from_octets(192, 0, 2, i as u8))).unwrap(); }
+            let mut aa = an.additional();
+            let apre = aa.as_slice().to_vec();
+            if st.answer(&mut aa, Time48::from_u64(t + 1)).is_err() { return; }
+            let awire = aa.as_slice().to_vec();
+            let mut d = with_len(&mac); d.extend_from_slice(&apre); d.extend_from_slice(&rfc_variables(&k, t + 1, 300, 0, &[]));
+            let mut want = alg.hmac(c, &k.secret, &d); want.truncate(k.sign_len());
+            let amac = awire[awire.len() - 6 - k.sign_len()..awire.len() - 6].to_vec();
+            let ccase = format!("cans {} {} {} 300 {} {}", k.words(), hex(&pre), t, hex(&awire), t + 1);
+            out.check_c(amac == want, "compressed_mac_rfc8945", &ccase, &format!("{} answer MAC {} reference {}", tag, hex(&amac), hex(&want)));
+            let w2 = awire.clone();
+            let res = catch_mut(move || { let mut m = Message::from_octets(w2).unwrap(); tr.answer(&mut m, Time48::from_u64(t + 1)).map(|_| m.as_slice().to_vec()) });
+            let obs = match &res { Ok(Ok(m)) => format!("Ok {}", hex(m)), Ok(Err(e)) => format!("Err {}", verr(e)), Err(_) => "Panic".into() };
+            // the model signs the request without compression; its context (the request MAC) is the same
+            out.case(&ccase, &obs, true, &format!("cans_compressed_{}", tag));
+            match res {
+                Ok(Ok(m)) => out.check_c(m.len() >= apre.len() && m[..apre.len()] == apre[..], "compressed_not_restored", &ccase, &hex(&m)),
+                _ => out.check_c(false, "compressed_answer_rejected", &ccase, &format!("{} {}", tag, obs)),
+            }
+        }
+        let n = if thorough { 200 } else { 4 } * scale;
+        for it in 0..n {
+            let mut r = r.fork();
+            idx += 1; if !out.wants(idx) { continue; }
+            let alg = Alg::all()[it % 4];
+            exchange(&mut out, &consts, &mut r, "static", alg, || StaticCompressor::new(Vec::<u8>::new()));
+            exchange(&mut out, &consts, &mut r, "tree", alg, || TreeCompressor::new(Vec::<u8>::new()));
+            exchange(&mut out, &consts, &mut r, "hash", alg, || HashCompressor::new(Vec::<u8>::new()));
+        }
+    }
+
+    // ---- 3c. the server TSIG middleware, end to end (wall clock time: honest and tampered only)
+    {
+        use domain::net::server::message::{Request, TransportSpecificContext, UdpTransportContext};
+        use domain::net::server::middleware::tsig::TsigMiddlewareSvc;
+        use domain::net::server::service::{CallResult, Service, ServiceResult};
+        use domain::net::server::util::{mk_builder_for_target, service_fn};
+        use futures_util::StreamExt;
+        fn handler(req: Request<Vec<u8>, Option<Key>>, _m: ()) -> ServiceResult<Vec<u8>> {
+            let b = mk_builder_for_target::<Vec<u8>>();
+            let mut a = b.start_answer(req.message(), Rcode::NOERROR).unwrap();
+            let qn = req.message().first_question().map(|q| q.qname().to_name::<Vec<u8>>());
+            if let Some(qn) = qn { a.push((qn, Class::IN, Ttl::from_secs(11), A::from_octets(203, 0, 113, 7))).unwrap(); }
+            Ok(CallResult::new(a.additional()))
+        }
+        let rt = tokio::runtime::Builder::new_current_thread().enable_all().build().unwrap();
+        let n = if thorough { 200 } else { 8 } * scale;
+        for it in 0..n {
+            let mut r = r.fork();
+            idx += 1; if !out.wants(idx) { continue; }
+            let alg = Alg::all()[it % 4];
+            let lo = std::cmp::max(10, alg.native() / 2);
+            let sign = if it % 3 == 0 { Some(r.range(lo as u64, alg.native() as u64) as usize) } else { None };
+            let sl = r.range(8, 40) as usize;
+            let k = KeySpec { alg, secret: r.bytes(sl), name: b"\x03mid\x04ware\x03Key\x00".to_vec(), min: Some(lo), sign };
+            let Ok(key) = k.lib() else { continue };
+            let id = r.u16();
+            let req_b = gen_message(&mut r, id, false);
+            let pre = req_b.as_slice().to_vec();
+            if Message::from_octets(pre.clone()).map(|m| m.first_question().is_none()).unwrap_or(true) { continue; }
+            let mut b = builder_from(&pre);
+            let now = Time48::now();
+            let Ok(tr) = ClientTransaction::request(key.clone(), &mut b, now) else { continue };
+            let wire = b.finish();
+            let mode = it % 4; // 0,1: honest  2: tampered body  3: unsigned
+            let sent = match mode { 2 => { let mut w = wire.clone(); let at = 12 + r.below((pre.len() - 12) as u64) as usize; w[at] ^= 0x10; w } 3 => pre.clone(), _ => wire.clone() };
+            let case = format!("middleware mode={} {} {}", mode, k.words(), hex(&sent));
+            out.begin(&case);
+            let svc = TsigMiddlewareSvc::<Vec<u8>, _, Key, ()>::new(service_fn(handler, ()), key.clone());
+            let request = Request::new("127.0.0.1:53".parse().unwrap(), std::time::Instant::now(), Message::from_octets(sent.clone()).unwrap(),
+                TransportSpecificContext::Udp(UdpTransportContext::new(None)), ());
+            let resp: Result<Option<Vec<u8>>, String> = catch_mut(|| rt.block_on(async {
+                let mut stream = svc.call(request).await;
+                match stream.next().await { Some(Ok(cr)) => cr.into_inner().0.map(|b| b.as_dgram_slice().to_vec()), _ => None }
+            }));
+            out.oracle_case(&case, true, "middleware");
+            let resp = match resp { Ok(Some(v)) => v, Ok(None) => { out.check_c(false, "middleware_no_response", &case, ""); continue } Err(e) => { out.check_c(false, "middleware_panic", &case, &e); continue } };
+            let rcode = resp[3] & 0x0f;
+            match mode {
+                0 | 1 => {
+                    let rw = resp.clone();
+                    let res = catch_mut(|| { let mut m = Message::from_octets(rw).unwrap(); tr.answer(&mut m, Time48::now()).map(|_| m.as_slice().to_vec()) });
+                    out.check_c(matches!(res, Ok(Ok(_))), "middleware_exchange_rejected", &case, &format!("response {} -> {:?}", hex(&resp), res.as_ref().map(|r| r.as_ref().map(|_| ()))));
+                    // independent MAC: request MAC | response without TSIG | variables with the time in the record
+                    let rr_len = k.name.len() + 10 + k.alg.name_wire().len() + 16 + k.sign_len();
+                    if resp.len() > rr_len + 12 && rcode == 0 {
+                        let mut prer = resp[..resp.len() - rr_len].to_vec();
+                        let ar = u16::from_be_bytes([prer[10], prer[11]]).wrapping_sub(1); prer[10..12].copy_from_slice(&ar.to_be_bytes());
+                        let tpos = resp.len() - rr_len + k.name.len() + 10 + k.alg.name_wire().len();
+                        let mut tb = [0u8; 8]; tb[2..].copy_from_slice(&resp[tpos..tpos + 6]);
+                        let ts = u64::from_be_bytes(tb);
+                        let fudge = u16::from_be_bytes([resp[tpos + 6], resp[tpos + 7]]);
+                        let reqmac = &wire[wire.len() - 6 - k.sign_len()..wire.len() - 6];
+                        let (_, want) = rfc_sign(&consts, &k, &with_len(reqmac), &prer, ts, fudge, 0, &[], false);
+                        out.check_c(resp == want, "middleware_mac_rfc8945", &case, &format!("response {} reference {}", hex(&resp), hex(&want)));
+                        out.check_c(fudge == 300, "middleware_fudge", &case, &format!("{}", fudge));
+                    } else { out.check_c(false, "middleware_exchange_rejected", &case, &format!("unexpected response shape {}", hex(&resp))); }
+                }
+                2 => {
+                    // RFC 8945 5.2.3: NOTAUTH with an unsigned TSIG carrying BADSIG; the application must not have answered
+                    let m = Message::from_octets(resp.clone()).unwrap();
+                    let answered = m.header_counts().ancount() > 0;
+                    let rw = resp.clone();
+                    let res = catch_mut(|| { let mut m = Message::from_octets(rw).unwrap(); tr.answer(&mut m, Time48::now()) });
+                    out.check_c(rcode == 9 && !answered, "middleware_tampered_request_answered", &case, &format!("rcode {} ancount>0 {} response {}", rcode, answered, hex(&resp)));
+                    out.check_c(matches!(res, Ok(Err(ValidationError::ServerBadSig))), "middleware_tampered_wrong_error", &case, &format!("{:?}", res));
+                }
+                _ => {
+                    // an unsigned request passes through unsigned
+                    let m = Message::from_octets(resp.clone()).unwrap();
+                    out.check_c(rcode == 0 && m.header_counts().arcount() == Message::from_octets(pre.clone()).unwrap().header_counts().arcount(), "middleware_unsigned_passthrough", &case, &hex(&resp));
+                }
+            }
+        }
+    }
+
     // ---- 4. sequences
     let n_seq = if thorough { 300 } else { 14 } * scale;
     for it in 0..n_seq {
